@@ -436,6 +436,97 @@ def gen_lazy_module_first_use(rng, k):
                 fresh_modules=mods, plans=('module-lines',))
 
 
+def gen_env_overlay_instantiations(rng, k):
+    """EnvWizard classes whose variables come from PER-CALL overlays: every thread instantiates a class of its own with a
+    secrets directory and / or a dotenv file of its own (`_secrets_dir=`, `_env_file=`), so every thread adds names of its own
+    to the process-wide tables (the environment copy, Env.var_names, Env.cleaned_to_env) at the same time.  Variables are spelled at
+    the exact tiers or only reachable through the cleaned tier, some fields are explicitly mapped (env_field: exact lookup
+    only), some have defaults and no variable.  The threads start after a warm-up instantiation: mode `plain` - nothing has read
+    Env.cleaned_to_env and no thread will (every variable at an exact tier or explicitly mapped, every field has one), so a name
+    lost from Env.var_names shows in the follow-up calls; mode `cleaned` - the warm-up has read it, any spelling and defaulted
+    fields without variable occur.  The follow-up calls instantiate every class again WITHOUT an overlay - what a call read from
+    its overlay stays in the library's copy of the environment in every sequential order - and once more with it.
+    (Kept out: threads that make the very FIRST use of the environment tables - findings/env-first-use-during-overlay-instantiation.py;
+    a thread that reads Env.cleaned_to_env for the first time - findings/env-cleaned-first-build-during-reload.py; `_reload=True` in a
+    thread, which replaces the copy wholesale: the sequential orders then differ among themselves.)"""
+    warm = ['plain', 'cleaned'][k % 2]
+    nthr = 2 if rng.random() < 0.7 else 3
+    used = set()
+    files, env, src, threads, post_plain, post_over = {}, {}, PRELUDE, [], [], []
+    dirs = []
+    wname = _fname(rng, used)
+    env[wname.upper()] = 'w'
+    src += f'\nclass Warm(EnvWizard):\n    {wname}: str\n' + (f'    {_fname(rng, used)}: str = "nothing"\n' if warm == 'cleaned' else '')
+    for i in range(nthr):
+        kinds = rng.sample(['secret', 'dotenv'], rng.choice([1, 1, 2]))
+        body, val = '', 0
+        nf = rng.randint(1, 3)
+        for j in range(nf):
+            n = _fname(rng, used)
+            source = rng.choice(kinds) if j == 0 else rng.choice(kinds + kinds + ['os'] + (['default'] if warm == 'cleaned' else []))
+            val += 1
+            v = f'v{i}{j}'
+            if source == 'default':
+                body += f'    {n}: str = "d{i}{j}"\n'
+                continue
+            x = rng.random()
+            if x < 0.25:
+                var = f'CUSTOM_{i}{j}_{n.upper()[:4]}'
+                body += (f'    {n}: str = env_field({var!r})\n' if j == 0 or rng.random() < 0.5
+                         else f'    {n}: str = env_field({var!r}, default="d{i}{j}")\n')
+            else:
+                var = n.upper() if x < 0.6 else n if x < 0.75 or warm == 'plain' else _spell(rng, n).replace(' ', '-')
+                body += f'    {n}: str\n' if j == 0 or rng.random() < 0.6 else f'    {n}: str = "d{i}{j}"\n'
+            if source == 'secret':
+                files[f's{i}/{var}'] = v
+            elif source == 'dotenv':
+                files[f'f{i}.env'] = files.get(f'f{i}.env', '') + f'{var}={v}\n'
+            else:
+                env[var] = v
+        # required fields first (dataclass rule)
+        lines = body.splitlines(True)
+        lines.sort(key=lambda ln: ('=' in ln and 'default=' in ln) or (' = "' in ln))
+        src += f'\nclass C{i}(EnvWizard):\n' + ''.join(lines)
+        args = []
+        if 'secret' in kinds:
+            args.append(f'_secrets_dir=os.path.join(TMP, "s{i}")')
+            dirs.append(f's{i}')
+        if 'dotenv' in kinds:
+            args.append(f'_env_file=os.path.join(TMP, "f{i}.env")')
+            files.setdefault(f'f{i}.env', '')
+        if len(args) == 2 and rng.random() < 0.5:
+            args.reverse()
+        threads.append(f'C{i}({", ".join(args)}).dict()')
+        post_plain.append(f'C{i}().dict()')
+        post_over.append(threads[-1])
+    rng.shuffle(post_plain)
+    pre = ['Warm().dict()']
+    return dict(name=f'env-overlays-per-thread-warm-{warm}', site=None, nfields=0, src=src, env=env, files=files, dirs=dirs, pre=pre,
+                threads=threads, post=post_plain + ['Warm().dict()'] + post_over, n_multi=40)
+
+
+# every scenario ends with the FIRST USE (load, then dump) of a class that no thread and no earlier call has touched, made - like
+# all follow-up calls - from a thread that is none of the scenario's threads: whatever the schedule, the library is as usable
+# for the rest of the program as after a sequential order
+PROBE_SRC = '''
+@dataclass
+class ProbeInner_:
+    some_num: int = 0
+
+@dataclass
+class Probe_:
+    probe_val: int
+    probe_inner: ProbeInner_
+    probe_list: List[str] = field(default_factory=list)
+'''
+PROBE_POST = ['fromdict(Probe_, {"probeVal": "7", "probe_inner": {"someNum": "1"}, "probe_list": [1]})',
+              'asdict(Probe_(1, ProbeInner_(2), ["x"]))']
+
+
+def with_probe(scn):
+    return dict(scn, src=scn['src'] + PROBE_SRC, post=list(scn.get('post') or []) + PROBE_POST)
+
+
 def _job(item):
     scn, plan, opcode, record = item
     return sched.run_case_in_child(scn, plan, opcode=opcode, record=record)
@@ -500,7 +591,7 @@ def table_plans(first_logs, nthr, rng, quick, cap):
 
 
 FAMILIES = [(gen_auto_tag_dump_vs_load, 2, 9), (gen_unrelated_classes_new_keys, 3, 12),
-            (gen_v1_alias_first_use, 2, 8), (gen_lazy_module_first_use, 3, 8)]
+            (gen_v1_alias_first_use, 2, 8), (gen_lazy_module_first_use, 3, 8), (gen_env_overlay_instantiations, 6, 30)]
 
 
 def run(ctx: C.Ctx):
@@ -517,7 +608,14 @@ def run(ctx: C.Ctx):
                 '(string_conv / type_conv / object_path) with later sequential calls in the outcome; v1 classes with Alias / AliasPath / '
                 'Annotated aliases, pre-empted at every line of the per-class set-up code; lazily imported optional modules '
                 '(pytimeparse, tomli_w, yaml) first needed by two threads in a process that has not imported them, pre-empted inside '
-                'the import (a thread blocking on the import lock is set aside by the scheduler). '
+                'the import (a thread blocking on the import lock is set aside by the scheduler); EnvWizard classes instantiated by '
+                '2-3 threads with a secrets directory / dotenv file OF THEIR OWN each (per-call overlays: every thread adds names to the '
+                'process-wide environment tables), variables at exact tiers / cleaned tier / explicitly mapped, after a warm-up that '
+                'has or has not read Env.cleaned_to_env, followed by instantiations of every class without and with its overlay. '
+                'EVERY scenario ends with the first load and first dump of a class nobody has touched, and all follow-up calls run on '
+                'threads that are none of the racing ones; a call (of a thread, of the follow-up, or in a sequential order) that has '
+                'not returned after 6 s without any event is an outcome of its own (`never-returned` / `unfinished`), which no '
+                'sequential order has. '
                 'Non-trivial = a schedule that actually pre-empted a thread inside the library.')
     ctx.assumptions += ['pre-emption points are line events (opcode events for the short scenarios) of library files and generated code: '
                         'a race whose window lies inside a single C-level call is not exhibited',
@@ -532,6 +630,7 @@ def run(ctx: C.Ctx):
     only_scn = os.environ.get('VERIF_C20_SCENARIOS')        # (development) comma-separated substrings of scenario names
     if only_scn:
         scenarios = [x for x in scenarios if any(w in x['name'] for w in only_scn.split(','))]
+    scenarios = [with_probe(x) for x in scenarios]
     for s_no, scn in enumerate(scenarios):
         if ctx.deadline is not None and ctx.done(idx):
             break
@@ -539,6 +638,16 @@ def run(ctx: C.Ctx):
         kinds = scn.get('plans') or (('single', 'multi', 'opcode') if scn.get('opcode') else ('single', 'multi'))
         # ---- sequential orders: the reference set, and the event logs
         seq = sched.fork_map(_job, [(scn, p, False, True) for p in seq_plans(nthr)])
+        hung = [(p, r) for p, r in zip(seq_plans(nthr), seq) if not r.get('harness_error') and r.get('outcomes') is not None
+                and (r.get('stuck') or r.get('hung'))]
+        if hung and ctx.only is None:
+            # a call that never returns has no result at all: also when the calls are made one after another
+            p, r = hung[0]
+            ctx.current = None
+            ctx.fail(f'{scn["name"]}:sequential', {'scenario': scn['name'], 'kind': 'sequential', 'order': [t for t, _ in p]},
+                     f'with the calls made one after another in the order {[t for t, _ in p]} (each on a thread of its own) a call never '
+                     f'returns: {json.dumps([r["outcomes"], r["post"]])[:700]}',
+                     detail={'src': scn['src'], 'threads': scn['threads'], 'pre': scn.get('pre'), 'post': scn.get('post')})
         bad = [r for r in seq if r.get('harness_error') or r.get('stuck')]
         if bad:
             ctx.notes.setdefault('harness_errors', []).append({'scenario': scn['name'], 'what': str(bad[0])[:800]})
@@ -625,7 +734,15 @@ def run(ctx: C.Ctx):
                 continue
             todo.append((i, kind, plan, opcode))
         t_scn = time.time()
-        outs = sched.fork_map(_job, [(scn, plan, opcode, False) for (_i, _k, plan, opcode) in todo])
+        # schedules under which a call never returns take seconds each: a handful of them is evidence enough, the rest of the
+        # scenario's schedules is then not run (counted as `skipped_after_hangs`)
+        n_hung = [0]
+
+        def stop(r):
+            if r.get('hung') or (r.get('stuck') and r.get('outcomes') is not None):
+                n_hung[0] += 1
+            return n_hung[0] >= 4
+        outs = sched.fork_map(_job, [(scn, plan, opcode, False) for (_i, _k, plan, opcode) in todo], stop=stop)
         ctx.notes.setdefault('seconds_per_scenario', {})[scn['name']] = [len(todo), round(time.time() - t_scn, 1)]
         any_fail = False
         for (i, kind, plan, opcode), r in zip(todo, outs):
@@ -636,8 +753,11 @@ def run(ctx: C.Ctx):
                 ctx.notes.setdefault('harness_errors', []).append({'scenario': scn['name'], 'what': r['harness_error'][:600]})
                 ctx.count('harness_error')
                 continue
-            if r.get('stuck'):
-                ctx.count('stuck_schedule')
+            if r.get('skipped'):
+                ctx.count('skipped_after_hangs')
+                continue
+            if r.get('stuck') and r.get('outcomes') is None:
+                ctx.count('stuck_schedule')         # the child itself had to be killed: nothing was observed
                 continue
             ctx.seen(f'{scn["name"]}:{kind}', case, nontrivial=r['switches'] >= 2)
             got = C.canon([r['outcomes'], r['post']])
